@@ -4,7 +4,7 @@
 # demo fails with the change, demo passes without it. On success installs it as /verif/seeded/<id>/.
 set -u
 ID=$1; DDIR=${2%/}; PAT=$3
-P=${ID:0:3}; WT=/tmp/mut2/$P; OUT=/tmp/mut2/out/$ID
+MUT=${MUT:-/tmp/mut2}; P=${ID:0:3}; WT=$MUT/$P; OUT=$MUT/out/$ID
 export GOFLAGS=-mod=mod GOPROXY=off GOSUMDB=off GOTOOLCHAIN=local
 cd $WT || exit 2
 git checkout -q -- . ; git clean -fdq
@@ -32,7 +32,7 @@ cat > $D/meta.json <<JSON
  "demo_run": "cd v3 && go test -vet=off -count=1 -run '$PAT' $PKG",
  "needs_to_manifest": "see notes.md (written by the independent sub-agent that produced the change)",
  "confirmed": "bin/confirm_seed2.sh in scratch worktree $WT at repo commit $COMMIT: patch applies, go build ./... ok, full suite passes with the change, demo fails with the change and passes without it",
- "origin": "fresh sub-agent (round 2) given only the property text and a scratch worktree"
+ "origin": "fresh sub-agent (later round) given only the property text and a scratch worktree"
 }
 JSON
 res "CONFIRMED"
